@@ -80,8 +80,10 @@ theorem invOwn_step {cfg : Cfg} {s s' : State} {n : Nat} (hinv : InvOwn cfg s)
       · simp [OwnOK]
       · exact hrest j hj
     · exact ⟨forall_step h1 (cons (by simp [OwnOK]) hrest) (by simp), h2⟩
-    · refine ⟨forall_step h1 ?_ (by simp), h2⟩
-      cases pooled <;> simp [OwnOK]
+    · split
+      · exact ⟨forall_step h1 (cons (by simp [OwnOK]) hrest) (by simp), h2⟩
+      · refine ⟨forall_step h1 ?_ (by simp), h2⟩
+        cases pooled <;> simp [OwnOK]
   | track e =>
     simp only [stepInstr]
     refine ⟨forall_step (hmono _) (cons ?_ (fun j hj => (hrest j hj).mono _)) (by simp), h2⟩
